@@ -1176,6 +1176,67 @@ def _append_loops(tree) -> int:
 
 
 
+# ---------------------------------------------------------------------------------------------- N23
+def _next_loops(tree) -> int:
+    """x = next(IT, None) ; while x: BODY ; x = next(IT, None)     ->     for x in IT: BODY
+    (the iterator idiom of the repository: elements are records / objects, never falsy; no break / continue in BODY)"""
+    count = 0
+
+    def is_next(st):
+        return isinstance(st, ast.Assign) and len(st.targets) == 1 and isinstance(st.targets[0], ast.Name) \
+            and isinstance(st.value, ast.Call) and isinstance(st.value.func, ast.Name) \
+            and st.value.func.id == 'next' and len(st.value.args) == 2 \
+            and isinstance(st.value.args[1], ast.Constant) and st.value.args[1].value is None
+    for parent in ast.walk(tree):
+        for fld in ('body', 'orelse', 'finalbody'):
+            blk = getattr(parent, fld, None)
+            if not (isinstance(blk, list) and blk and isinstance(blk[0], ast.stmt)):
+                continue
+            i = 0
+            while i + 1 < len(blk):
+                a, w = blk[i], blk[i + 1]
+                if is_next(a) and isinstance(w, ast.While) and not w.orelse and w.body and is_next(w.body[-1]):
+                    x = a.targets[0].id
+                    if isinstance(w.test, ast.Name) and w.test.id == x and w.body[-1].targets[0].id == x \
+                            and ast.dump(w.body[-1].value.args[0]) == ast.dump(a.value.args[0]) \
+                            and not any(isinstance(n, (ast.Break, ast.Continue)) for s_ in w.body for n in ast.walk(s_)):
+                        it = a.value.args[0]
+                        # the iterator is a local bound once to a generator expression right before: iterate that
+                        if isinstance(it, ast.Name) and i > 0 and isinstance(blk[i - 1], ast.Assign) \
+                                and len(blk[i - 1].targets) == 1 and isinstance(blk[i - 1].targets[0], ast.Name) \
+                                and blk[i - 1].targets[0].id == it.id and isinstance(blk[i - 1].value, ast.GeneratorExp) \
+                                and sum(1 for n in ast.walk(parent) if isinstance(n, ast.Name) and n.id == it.id) == 3:
+                            g = blk[i - 1].value
+                            if len(g.generators) == 1 and isinstance(g.elt, ast.Name) and isinstance(g.generators[0].target, ast.Name) \
+                                    and g.elt.id == g.generators[0].target.id and not g.generators[0].is_async:
+                                # for x in (v for v in C if cond): BODY  ->  for v in C: if cond: BODY   (x renamed to v)
+                                v = g.generators[0].target.id
+                                body = w.body[:-1] or [ast.Pass()]
+                                if x != v:
+                                    body = [_Subst({x: ast.Name(id=v, ctx=ast.Load())}).visit(copy.deepcopy(s_)) for s_ in body]
+                                if g.generators[0].ifs:
+                                    tst = g.generators[0].ifs[0] if len(g.generators[0].ifs) == 1 else \
+                                        ast.BoolOp(op=ast.And(), values=list(g.generators[0].ifs))
+                                    body = [ast.If(test=tst, body=body, orelse=[])]
+                                new = ast.For(target=ast.Name(id=v, ctx=ast.Store()), iter=g.generators[0].iter, body=body,
+                                              orelse=[], type_comment=None)
+                                ast.copy_location(new, w)
+                                ast.fix_missing_locations(new)
+                                blk[i - 1:i + 2] = [new]
+                                count += 1
+                                i = max(i - 1, 0)
+                                continue
+                        new = ast.For(target=ast.Name(id=x, ctx=ast.Store()), iter=it, body=w.body[:-1] or [ast.Pass()],
+                                      orelse=[], type_comment=None)
+                        ast.copy_location(new, w)
+                        ast.fix_missing_locations(new)
+                        blk[i:i + 2] = [new]
+                        count += 1
+                        continue
+                i += 1
+    return count
+
+
 # ---------------------------------------------------------------------------------------------- N22
 def _local_list_values(tree) -> int:
     """A list created empty in the function, only ever appended to / extended OUTSIDE loops (or by the plain loop
@@ -1362,6 +1423,7 @@ def normalize(tree: ast.Module, inline: bool = True) -> ast.Module:
     n.count += _search_loops(tree)
     n.count += _raise_split_and_unpeel(tree)
     n.count += _setdefault_on_fresh_dict(tree)
+    n.count += _next_loops(tree)
     n.count += _append_loops(tree)
     n.count += _local_list_values(tree)
     cp = _CopyProp()
